@@ -81,6 +81,8 @@ DECIDING = {
     # pattern-based subscriptions / registrations (concrete URI in details.topic / details.procedure, key by concrete URI)
     "pattern_events_compared": 300, "pattern_invocations_compared": 1000, "pattern_results_compared": 800,
     "pattern_errors_compared": 300, "faults_pattern_registration": 5000, "pattern_policies": 4,
+    # ERROR direction at callers that define()d an exception class for the envelope error URI
+    "faults_error_defined_class": 8000, "mapped_errors_compared": 300,
 }
 
 COMBOS = [("websocket", "json"), ("websocket", "msgpack"), ("websocket", "cbor"), ("websocket", "ubjson"),
@@ -100,6 +102,12 @@ PATTERN_SUBS = [("com.c20.p.", "prefix", "com.c20.p.q.a2"), ("com.", "prefix", "
                 ("com.c20..a5", "wildcard", "com.c20.y.a5"), ("com.c20.p..a3x", "wildcard", "com.c20.p.q.a3x")]
 PATTERN_REGS = [("com.c20.", "prefix", "com.c20.p.a1"), ("com.c20.", "prefix", "com.c20.p.q.a2"), ("com.c20.p.", "prefix", "com.c20.p.q.r.a3"),
                 ("com.c20.", "prefix", "com.c20.zz.a4"), ("com.c20..a5", "wildcard", "com.c20.y.a5"), ("org..a6", "wildcard", "org.c20.a6")]
+
+
+# error URIs for which the CALLER session define()s an exception class (constructible from anything / fixed signature
+# (item, qty=0)); the other error URIs arrive as generic ApplicationError
+DEFINE_ANY = ["com.c20.p.q.err2", "org.c20.err4", "com.c20.p.derr1", "com.c20.p.derr9"]
+DEFINE_FIXED = ["com.c20.p.ferr1", "com.c20.p.ferr9"]
 
 
 def nhandlers(topic):
@@ -320,6 +328,7 @@ class Ctx:
             self.drop()
         if self.pair is None:
             self.pair = _P().Pair(self.transport, self.ser, self.side_a, self.side_b)
+            self.pair.define_errors(DEFINE_ANY, DEFINE_FIXED)
             self.pairs_built += 1
         return self.pair
 
@@ -450,6 +459,9 @@ class Ctx:
             return ("ok", ("single", v))
         if isinstance(v, ApplicationError):
             return ("apperr", v.error, list(v.args), dict(v.kwargs or {}))
+        if hasattr(v, "c20_uri"):
+            # an exception class the caller define()d for that error URI, built by the library from the ERROR's payload
+            return ("mapped", v.c20_uri, list(v.c20_args), dict(v.c20_kwargs), type(v).__name__)
         return ("exc", type(v).__name__, str(v)[:200])
 
     def expect_enc_error(self, o, path, fclass, label):
@@ -462,6 +474,8 @@ class Ctx:
             what = "resolved"
         elif oc[0] == "apperr":
             what = "other-error"
+        elif oc[0] == "mapped":
+            what = "mapped-class"
         else:
             what = oc[0]
         self.V("C20/%s/%s/call-outcome/%s" % (path, fclass, what),
@@ -687,14 +701,17 @@ def rt_call(ctx, proc, kind, shape=None, reg=None, match=None):
         else:
             _, ok_a, renc, rargs, rkwargs, euri = final_state
             if ok_a:
-                if oc[0] != "apperr":
+                if oc[0] not in ("apperr", "mapped"):
                     ctx.V("C20/error/%s/call-outcome/%s" % ("not-recovered" if renc else "clear-by-rule", oc[0]),
                           "unaltered ERROR between matching key rings: call did not fail with the callee's error: %s" % short(oc, 300))
                 elif renc:
-                    if oc[1] != euri or not same(oc[2], rargs) or not same(oc[3], rkwargs):
+                    want_kind = "mapped" if euri in p.defined else "apperr"
+                    if oc[0] != want_kind or oc[1] != euri or not same(oc[2], rargs) or not same(oc[3], rkwargs):
                         ctx.V("C20/error/not-recovered/payload-differs", "caller received an error different from the callee's",
-                              got=short(oc, 600), expected=short((euri, rargs, rkwargs), 600))
+                              got=short(oc, 600), expected=short((want_kind, euri, rargs, rkwargs), 600))
                     R.count("errors_compared")
+                    if want_kind == "mapped":
+                        R.count("mapped_errors_compared")
                     if match:
                         R.count("pattern_errors_compared")
                     R.seen("shapes_recovered", "error/" + kind)
@@ -974,7 +991,7 @@ def faults_invocation(ctx, proc, other, shape, stride, pattern=False):
               "alterations": n, "plain": short((args, kwargs), 200)}, kind="fault-enumeration")
 
 
-def faults_reply(ctx, proc, other, shape, stride, mode, pattern=False):
+def faults_reply(ctx, proc, other, shape, stride, mode, pattern=False, defined=None):
     """mode: 'result' | 'progress' | 'error' - alterations of what travels back to the caller.  pattern: the genuine
     replies come from an endpoint registered under a PREFIX, invoked with the concrete URI in details.procedure."""
     P = _P()
@@ -983,7 +1000,11 @@ def faults_reply(ctx, proc, other, shape, stride, mode, pattern=False):
     reg_of = (lambda t: "com.c20.") if pattern else (lambda t: t)
     det = (lambda t: {"procedure": t}) if pattern else (lambda t: None)
     size = ctx.case.get("size", "small")
-    err_uri, err_other = "com.c20.p.err1", "com.c20.p.err9"
+    # defined: None = the error URIs arrive as generic ApplicationError | "any" / "fixed" = the caller has define()d a
+    # class for BOTH error URIs (constructible from anything / with the signature (item, qty=0))
+    err_uri, err_other = {None: ("com.c20.p.err1", "com.c20.p.err9"), "any": ("com.c20.p.derr1", "com.c20.p.derr9"),
+                          "fixed": ("com.c20.p.ferr1", "com.c20.p.ferr9")}[defined]
+    err_kind = "mapped" if defined else "apperr"
 
     def setup():
         p = ctx.P()
@@ -1002,6 +1023,11 @@ def faults_reply(ctx, proc, other, shape, stride, mode, pattern=False):
     p = setup()
     rargs, rkwargs, rtags, shape = gen_payload(ctx.rng, ctx.tg, shape, size=size)
     oargs, okwargs, _t, _ = gen_payload(ctx.rng, ctx.tg, "args", small=True)
+    if defined == "fixed":
+        # payloads that fit the fixed signature - also the OTHER error's, so that a swapped payload is constructible
+        rtags = [("s", ctx.tg.new("s")), ("i", ctx.tg.new("i"))]
+        rargs, rkwargs = [rtags[0][1]], {"qty": rtags[1][1]}
+        oargs, okwargs = [ctx.tg.new("s")], {"qty": ctx.tg.new("i")}
     ctx.add_secrets(rtags)
     if mode == "error":
         uri, ouri = err_uri, err_other
@@ -1054,7 +1080,7 @@ def faults_reply(ctx, proc, other, shape, stride, mode, pattern=False):
 
     def is_original(oc, prog):
         if mode == "error":
-            return oc[0] == "apperr" and oc[1] == uri and same(oc[2], rargs) and same(oc[3], rkwargs)
+            return oc[0] == err_kind and oc[1] == uri and same(oc[2], rargs) and same(oc[3], rkwargs)
         if mode == "progress":
             return len(prog) == 1 and same(prog[0][0], rargs) and same(prog[0][1], rkwargs) and oc == ("ok", ("single", "c20-final"))
         return oc[0] == "ok" and same(oc, ("ok", norm_result(rargs, rkwargs)))
@@ -1066,6 +1092,8 @@ def faults_reply(ctx, proc, other, shape, stride, mode, pattern=False):
         if not is_original(oc, prog):
             ctx.V("C20/%s/not-recovered/genuine-between-faults" % path, "the genuine reply was not delivered exactly (%s)" % when,
                   got=short((oc, prog), 500), expected=short((uri, rargs, rkwargs), 400))
+        elif defined:
+            R.count("mapped_errors_compared")
 
     genuine_ok("before faults")
     n = 0
@@ -1073,10 +1101,12 @@ def faults_reply(ctx, proc, other, shape, stride, mode, pattern=False):
         fault_count(ctx, path, fclass)
         if pattern:
             R.count("faults_pattern_registration")
+        if defined:
+            R.count("faults_error_defined_class")
         o, prog = exchange(q, env)
         oc = ctx.outcome(o)
         alive = ctx.pair.alive()
-        ctx.nontrivial("fault", path + ("-pattern" if pattern else ""), fclass, label)
+        ctx.nontrivial("fault", path + ("-pattern" if pattern else "") + ("-defined-" + defined if defined else ""), fclass, label)
         if mode == "progress":
             if prog:
                 orig = len(prog) == 1 and same(prog[0][0], rargs) and same(prog[0][1], rkwargs)
@@ -1124,7 +1154,8 @@ def family_faults(ctx):
     # two URIs under the SAME key (needed for the URI swaps)
     uri, other = ctx.case.get("uris", ["com.c20.p.a1", "com.c20.p.b7"])
     for path in ctx.case.get("paths", ["event", "event-pattern", "invocation", "result", "progress", "error",
-                                       "invocation-pattern", "result-pattern", "progress-pattern", "error-pattern"]):
+                                       "invocation-pattern", "result-pattern", "progress-pattern", "error-pattern",
+                                       "error-defined-any", "error-defined-fixed"]):
         if path == "event":
             faults_event(ctx, uri, other, shape, stride)
         elif path == "event-pattern":
@@ -1133,6 +1164,10 @@ def family_faults(ctx):
             faults_invocation(ctx, uri, other, shape, stride)
         elif path == "invocation-pattern":
             faults_invocation(ctx, uri, other, shape, max(stride, 3), pattern=True)
+        elif path == "error-defined-any":
+            faults_reply(ctx, uri, other, shape, stride, "error", defined="any")
+        elif path == "error-defined-fixed":
+            faults_reply(ctx, uri, other, shape, max(stride, 3), "error", defined="fixed")
         elif path.endswith("-pattern"):
             faults_reply(ctx, uri, other, shape, max(stride, 5), path[:-8], pattern=True)
         else:
